@@ -102,6 +102,10 @@ pub fn check(c: &Case, obs: &mut Obs) -> Result<(), String> {
     }
     let mut ok_steps = 0;
     let mut fed_derived_nested = false;
+    // half of the chains append every path selection to one pair of buffers, as a caller
+    // collecting results does
+    let shared_buffers = c.ops.first().map(|o| o.c % 2 == 1).unwrap_or(false);
+    let (mut sd, mut so): (Vec<u8>, Vec<u64>) = (Vec::new(), Vec::new());
     for (step, op) in c.ops.iter().enumerate() {
         let n = pool.len();
         let i = pick(op.a, n);
@@ -270,6 +274,19 @@ pub fn check(c: &Case, obs: &mut Obs) -> Result<(), String> {
                 let r = nopanic("array_distinct", || jsonb::array_distinct(&bi, &mut buf))?;
                 edit("array_distinct".into(), Ok(t::array_distinct(&mi)), r, buf)?
             }
+            18 | 19 if op.c % 5 == 0 && mj.all_finite() => {
+                // the second list given as JSON text (the functions accept either form): it then
+                // is the document the text denotes, non-negative integers unsigned
+                let mjt = mj.unsigned_norm();
+                let tj = crate::textref::model_text(&mjt, &op.ch);
+                let (what, r, want) = if kind == 18 {
+                    ("array_intersection", nopanic("array_intersection", || jsonb::array_intersection(&bi, &tj, &mut buf))?, t::array_partition(&mi, &mjt).0)
+                } else {
+                    ("array_except", nopanic("array_except", || jsonb::array_except(&bi, &tj, &mut buf))?, t::array_partition(&mi, &mjt).1)
+                };
+                obs.label("second-argument-as-text");
+                edit(format!("{what}(_, text of pool[{j}] {:?})", String::from_utf8_lossy(&tj)), Ok(want), r, buf)?
+            }
             18 => {
                 let r = nopanic("array_intersection", || jsonb::array_intersection(&bi, &bj, &mut buf))?;
                 edit(format!("array_intersection(_, pool[{j}])"), Ok(t::array_partition(&mi, &mj).0), r, buf)?
@@ -291,9 +308,25 @@ pub fn check(c: &Case, obs: &mut Obs) -> Result<(), String> {
                         Ok(Expect::Items(items)) if items.iter().all(|x| x.sure) && mi.all_finite() => {
                             let want: Vec<M> = items.iter().map(|x| x.v.clone()).collect();
                             let mode = [Mode::All, Mode::Array, Mode::First][(kind - 20) as usize].clone();
-                            let (mut d, mut o) = (Vec::new(), Vec::new());
-                            nopanic("Selector::select", || Selector::new(parse_json_path(text.as_bytes()).unwrap(), mode.clone()).select(&bi, &mut d, &mut o))?
+                            let (before_d, before_o) = (sd.clone(), so.clone());
+                            nopanic("Selector::select", || Selector::new(parse_json_path(text.as_bytes()).unwrap(), mode.clone()).select(&bi, &mut sd, &mut so))?
                                 .map_err(|e| format!("{tag} select({text:?}) failed: {e:?}"))?;
+                            if !sd.starts_with(&before_d) || !so.starts_with(&before_o) {
+                                return Err(format!("{tag} select({text:?}) changed results stored earlier in the same buffers: {} became {}", hex(&before_d), hex(&sd[..before_d.len().min(sd.len())])));
+                            }
+                            let d: Vec<u8> = sd[before_d.len()..].to_vec();
+                            let mut o: Vec<u64> = vec![];
+                            for x in &so[before_o.len()..] {
+                                match x.checked_sub(before_d.len() as u64) {
+                                    Some(v) => o.push(v),
+                                    None => return Err(format!("{tag} select({text:?}) appended offset {x} to buffers already holding {} bytes", before_d.len())),
+                                }
+                            }
+                            if !shared_buffers {
+                                sd.clear();
+                                so.clear();
+                            }
+                            obs.label_if(!before_d.is_empty(), "selection-appended-to-earlier-results");
                             match mode {
                                 Mode::All => {
                                     let got = super::c08::split_items(&d, &o).map_err(|e| format!("{tag} select({text:?}): {e}"))?;
